@@ -30,7 +30,7 @@ type c19Lean struct {
 func c19WantLean() bool { return atomic.AddInt64(&c19LeanLeft, -1) >= 0 }
 
 // c19EmitRebuild writes the image lines and `dur rebuild`; outcome is what the real Recover produced.
-func c19EmitRebuild(c *Ctx, l *c19Lean, o *opt.Options, cmpID string, outcome string, dbg string) bool {
+func c19EmitRebuild(c *Ctx, l *c19Lean, o *opt.Options, cmpID string, outcome string) bool {
 	fds := l.pristine.Files()
 	var lines []string
 	lines = append(lines, "dur reset "+cmpID)
@@ -71,9 +71,6 @@ func c19EmitRebuild(c *Ctx, l *c19Lean, o *opt.Options, cmpID string, outcome st
 		c.Lean(ln, "ok")
 	}
 	c.Lean("dur rebuild", outcome)
-	if dbg != "" {
-		c.Lean("dur rebuildx", dbg)
-	}
 	crLeanMu.Unlock()
 	return true
 }
